@@ -2,7 +2,7 @@ package main
 
 // verbs: runs one Miller verb in-process on a list of records, one request per line (used by C09 and C11).
 //
-//	request : {"seed":7,"args":["head","-n","1","-g","a"],"recs":[[["a","1"],["b","x"]], ...]}
+//	request : {"seed":7,"args":["head","-n","1","-g","a"],"recs":[[["a","1"],["b","x"]], ...],"nrs":[3,1,1,9]}   (nrs optional)
 //	response: {"ok":true,"out":[[["a","1"],["b","x"]], ...]}   or   {"ok":false,"err":"..."}  /  {"ok":false,"panic":"..."}
 //
 // The verb is built by the real ParseCLIFunc from the transformer lookup table, records are built like the DKVP
@@ -28,6 +28,9 @@ type verbReq struct {
 	Seed int64         `json:"seed"`
 	Args []string      `json:"args"`
 	Recs [][][2]string `json:"recs"`
+	// optional: the context NR (= FNR) each record carries, as after upstream verbs that drop, reorder or repeat
+	// records; default: the arrival index 1, 2, 3, ...
+	Nrs []int64 `json:"nrs"`
 }
 
 type verbResp struct {
@@ -70,12 +73,17 @@ func runVerb(req *verbReq) (resp verbResp) {
 	context := types.NewContext()
 	context.UpdateForStartOfFile("(stdin)")
 	outs := make([]*types.RecordAndContext, 0, len(req.Recs))
-	for _, r := range req.Recs {
+	for i, r := range req.Recs {
 		rec := mlrval.NewMlrmapAsRecord()
 		for _, kv := range r {
 			rec.PutReference(kv[0], mlrval.FromDeferredType(kv[1]))
 		}
-		context.UpdateForInputRecord()
+		if i < len(req.Nrs) {
+			context.NR = req.Nrs[i]
+			context.FNR = req.Nrs[i]
+		} else {
+			context.UpdateForInputRecord()
+		}
 		if err := tr.Transform(types.NewRecordAndContext(rec, context), &outs, idone, odone); err != nil {
 			return verbResp{Ok: false, Err: err.Error()}
 		}
